@@ -204,7 +204,7 @@ def _rule_layout_agreement(ctx, rule="LAYOUT"):
                 leaves = [_const_leaf(F, l) for l in leaves]
                 want = {_const_leaf(F, hdr), newcap}
                 got = set(leaves)
-                extra = got - want - {_const_leaf(F, usz)}
+                extra = got - want - {_const_leaf(F, usz)} - {"const:0"}      # (`+ 0` on the arm without the slot)
                 ok = want <= got and not extra and ops <= {"wrapping_add", "saturating_add", "checked_add", "select"}
                 if F.ptr_bits == 64:
                     ok = ok and _const_leaf(F, usz) not in got
